@@ -93,6 +93,16 @@ def nav_programs():
     ]
     o5 = [["s", n] for n in ("G", "U", "WB", "WN", "WS", "WV", "WH")]
     out.append({"prog": p5, "ord": o5, "label": "warnings"})
+    # P6: rows that are no options - comments, a menu holding only a comment, an empty menu - shown or hidden by an
+    # option X on which no option or choice depends in any way
+    p6 = [
+        g("X"),
+        {"k": "comment", "title": "while X", "dep": S("X")},
+        {"k": "menu", "title": "only a comment inside", "dep": Y, "visif": S("X"), "children": [{"k": "comment", "title": "inside", "dep": Y}]},
+        {"k": "menu", "title": "nothing inside", "dep": S("X"), "visif": Y, "children": []},
+        g("Y", "n"),
+    ]
+    out.append({"prog": p6, "ord": [["s", "X"], ["s", "Y"]], "label": "comment-rows"})
     return out
 
 
